@@ -60,6 +60,33 @@ def find_loop(func_node, selector):
             loops.append(n)
             self.generic_visit(n)
     V().visit(func_node)
+    if 'stmts' in selector:
+        # a contiguous statement range [first, last] of some block of the function, selected by the text the statements start with
+        first, last = selector['stmts']
+        found = []
+        for node in ast.walk(func_node):
+            for field in ('body', 'orelse', 'finalbody'):
+                block = getattr(node, field, None)
+                if not isinstance(block, list):
+                    continue
+                for i, st in enumerate(block):
+                    if isinstance(st, ast.stmt) and ast.unparse(st).startswith(first):
+                        for j in range(i, len(block)):
+                            if ast.unparse(block[j]).startswith(last):
+                                found.append(block[i:j + 1])
+                                break
+        if len(found) != 1:
+            raise LookupError('statement-range selector %r matches %d ranges' % (selector, len(found)))
+        return ast.While(test=ast.Constant(True), body=found[0], orelse=[])
+    if 'loop_body_prefix' in selector:
+        # the statements of a loop body that precede its first nested loop
+        outer = find_loop(func_node, selector['loop_body_prefix'])
+        pre = []
+        for st in outer.body:
+            if isinstance(st, (ast.For, ast.While)):
+                break
+            pre.append(st)
+        return ast.While(test=ast.Constant(True), body=pre, orelse=[])
     if 'loop' in selector:
         return loops[selector['loop']]
     out = []
